@@ -6,6 +6,7 @@ An observation is the token `tag:time[:feat…]`, a list of observations is `,`-
 a name table is a `,`-separated list (`_` = empty). A track reply is `<pts> <names>`.
   index <times> <ts>                        → `ok <id>` | `err:index` | `fuel`
   indexj <j> <times> <ts>                   → same, first step 2^j
+  ilog2 <lo> <hi>                           → `ilog2 N` for N = lo..hi-1 (`,`-separated)
   insert <pts> <names> <obs>                → track | err:index
   sort <pts> <names>                        → track | err:index
   remove <pts> <idxs>                       → `<pts> <counter | err:index>`
@@ -50,6 +51,10 @@ def handle (cmd : String) (args : List String) : String :=
     match j.toNat?, intList? ts, t.toInt? with
     | some j, some T, some t => showRes (insertionIndexFrom j T t)
     | _, _, _ => "bad-request"
+  | "ilog2", [lo, hi] =>
+    match lo.toNat?, hi.toNat? with
+    | some lo, some hi => showList toString ((List.range (hi - lo)).map (fun i => ilog2 (lo + i)))
+    | _, _ => "bad-request"
   | "insert", [p, n, o] =>
     match track? p n, obs? o with
     | some tr, some o =>
